@@ -319,6 +319,7 @@ class Registry(object):
                 o.seconds += dt
                 self.solver_seconds += dt
                 o.merge("discharged")
+                self._selftest_replay(oid, replay)
                 if len(self.samples) < 6:
                     self.samples.append({"obligation": oid, "status": "discharged",
                                          "backend": "polynomial normal form", "seconds": round(dt, 4),
@@ -350,6 +351,7 @@ class Registry(object):
         self.solver_seconds += dt
         if status == "unsat":
             o.merge("discharged")
+            self._selftest_replay(oid, replay)
             if len(self.samples) < 6:
                 self.samples.append({"obligation": oid, "status": "discharged",
                                      "backend": backend, "seconds": round(dt, 4),
@@ -405,6 +407,27 @@ class Registry(object):
                                       "(artefact of an uninterpreted symbol or spec mismatch)",
                             "info": info}
         return False
+
+    def _selftest_replay(self, oid, replay):
+        """VERIF_SELFTEST_REPLAYS=1 (self-validation of the machinery, not part of any check): after an obligation
+        has been DISCHARGED its replay adapter is run as well; an adapter that 'reproduces a failure' on code whose
+        obligation holds would confirm spurious counterexamples, and is reported as a checker error."""
+        if replay is None or os.environ.get("VERIF_SELFTEST_REPLAYS") != "1":
+            return
+        key = getattr(replay, "__code__", None)
+        key = (key.co_filename, key.co_firstlineno) if key is not None else id(replay)
+        seen = self.__dict__.setdefault("_selftested", {})
+        if key in seen:
+            return
+        seen[key] = True
+        try:
+            reproduced, rinfo = replay(None)
+        except Exception:         # noqa  (adapters that need the solver's model cannot be run without one)
+            return
+        if reproduced:
+            self.errors.append("replay adapter of %s reports a failing input although the obligation is discharged: %s"
+                               % (oid, str(rinfo)[:300]))
+
 
     def prove_by_cases(self, oid, assumptions, goal, atoms, **kw):
         """Discharge `assumptions => goal` by splitting on the truth of `atoms`
